@@ -1,6 +1,7 @@
 package checks
 
 import (
+	"runtime"
 	"context"
 	"io"
 	"strconv"
@@ -69,7 +70,7 @@ func c12Entries() []c12Entry {
 					}
 					w := mon.NewRecWriter()
 					w.FailAt = k
-					o := Guard(func() error { return gtree.OutputFromMarkdown(w, strings.NewReader(doc), opts...) })
+					o := Guard(func() error { return gtree.OutputFromMarkdown(w, MDReader(doc), opts...) })
 					return nil, 0, o
 				}})
 			}
@@ -96,14 +97,14 @@ func c12Entries() []c12Entry {
 			if massive {
 				opts = append(opts, gtree.WithMassive(ctx))
 			}
-			return nil, 0, Guard(func() error { return gtree.MkdirFromMarkdown(strings.NewReader(doc), opts...) })
+			return nil, 0, Guard(func() error { return gtree.MkdirFromMarkdown(MDReader(doc), opts...) })
 		}})
 		es = append(es, c12Entry{name: "MkdirFromMarkdown[real]", massive: massive, fs: true, run: func(doc string, ctx context.Context, target string) ([]byte, int, Outcome) {
 			opts := []gtree.Option{gtree.WithTargetDir(target), gtree.WithFileExtensions([]string{".go"})}
 			if massive {
 				opts = append(opts, gtree.WithMassive(ctx))
 			}
-			return nil, 0, Guard(func() error { return gtree.MkdirFromMarkdown(strings.NewReader(doc), opts...) })
+			return nil, 0, Guard(func() error { return gtree.MkdirFromMarkdown(MDReader(doc), opts...) })
 		}})
 		for _, strict := range []bool{false, true} {
 			strict := strict
@@ -115,7 +116,7 @@ func c12Entries() []c12Entry {
 				if massive {
 					opts = append(opts, gtree.WithMassive(ctx))
 				}
-				return nil, 0, Guard(func() error { return gtree.VerifyFromMarkdown(strings.NewReader(doc), opts...) })
+				return nil, 0, Guard(func() error { return gtree.VerifyFromMarkdown(MDReader(doc), opts...) })
 			}})
 		}
 	}
@@ -270,7 +271,10 @@ func evalC12(c *Ctx, cs *Case, lm *mon.LeakMonitor) {
 		// every call runs under the guard: massive calls for deadlocks, all calls for the 120 s
 		// per-call watchdog (a call on a small input that has not returned by then while its
 		// goroutines are still running is reported as non-terminating)
+		// a third of the massive calls run on one processor, a third on two
+		restoreProcs := c12Procs(c, cs, e.massive, len(doc)+len(e.name))
 		g = lm.RunGuarded(func() { out, calls, o = e.run(doc, context.Background(), target) }, 120*time.Second)
+		restoreProcs()
 		nontrivial := len(doc) > 0
 		c.Eval(gen.HashString(doc+"\x00"+cs.Entry), nontrivial)
 		c.SetAdd("entries", cs.Entry)
@@ -398,7 +402,9 @@ func evalC12Root(c *Ctx, cs *Case, lm *mon.LeakMonitor) {
 		var o Outcome
 		var g mon.GuardResult
 		if e.massive {
+			restoreProcs := c12Procs(c, cs, true, len(cs.Names)+len(e.name))
 			g = lm.RunGuarded(func() { o = e.run(context.Background(), jail.Target) }, 120*time.Second)
+			restoreProcs()
 		} else {
 			o = e.run(context.Background(), jail.Target)
 		}
@@ -426,4 +432,21 @@ func evalC12Root(c *Ctx, cs *Case, lm *mon.LeakMonitor) {
 		c.Sample(cs.Kind, map[string]any{"tree": key})
 	}
 	cs.Entry, cs.Tags = "", nil
+}
+
+// c12Procs sets GOMAXPROCS for one massive call (1, 2 or unchanged, chosen by k) and returns
+// the function that restores it.
+func c12Procs(c *Ctx, cs *Case, massive bool, k int) func() {
+	if !massive {
+		return func() {}
+	}
+	p := []int{1, 2, 0}[k%3]
+	if p == 0 {
+		c.SetAdd("gomaxprocs", "machine")
+		return func() {}
+	}
+	old := runtime.GOMAXPROCS(p)
+	cs.AddTag("gomaxprocs=" + strconv.Itoa(p))
+	c.SetAdd("gomaxprocs", strconv.Itoa(p))
+	return func() { runtime.GOMAXPROCS(old) }
 }
